@@ -176,6 +176,10 @@ structure Oracle where
   to the source by the regenerated fact `Generated.C04.deadlineSetters`) -/
   dlRd : Bool
   dlWr : Bool
+  /-- does a restarting `Negotiate` return a new connection layer (as STARTTLS does) rather than
+  the session's current connection (as SASL does); only matters when a tee is configured: a new
+  layer is not a `teeConn`, so the negotiator wraps it again -/
+  layer : Nat → Feature → Bool
 
 /-! ### machine -/
 
@@ -227,6 +231,8 @@ inductive Pc
   | blocked (op : IoOp)
   /-- the call never returns: blocked in a read / write whose deadline does not pass -/
   | hung (wr : Bool)
+  /-- `negotiateSession` got the `teeConn` back from the negotiator (only entered by `stepT`) -/
+  | tee
   /-- the pick script does not describe a possible map iteration -/
   | stuck
   deriving DecidableEq, Repr
@@ -451,14 +457,46 @@ def step (C : List Feature) (O : Oracle) (c : Conf) : Conf :=
   | .blocked .listRd => unblock O c false (.rd .list .fault)
   | .blocked .selRd => unblock O c false (.rd .sel .fault)
   | .hung _ => c
+  | .tee => c
   | .stuck => c
+
+/-- a configuration of a session whose `StreamConfig` may carry `TeeIn`/`TeeOut`: the
+configuration and whether the session's connection currently is a `teeConn` -/
+structure TConf where
+  c : Conf
+  teed : Bool
+  deriving Repr
+
+/-- did the `Negotiate` call logged last return a new connection layer -/
+def layerOfLast (O : Oracle) : List Ev → Bool
+  | .neg f _ _ _ _ _ :: rest => O.layer rest.length f
+  | _ => false
+
+/-- One step of a session whose `StreamConfig` may carry a tee (`tee`): before anything else a
+negotiator call wraps a connection that is not yet a `teeConn` and returns it (no mask, no
+I/O); `negotiateSession` checks the context, installs it (clearing `s.negotiated`) and calls the
+negotiator again. Everything else is `step`; a restart with a new connection layer (which is not
+a `teeConn`) makes the next negotiator call wrap again. -/
+def stepT (tee : Bool) (C : List Feature) (O : Oracle) (t : TConf) : TConf :=
+  if t.c.pc = .tee then
+    if O.cancel t.c.tr then ⟨t.c.goto (.fail .io), t.teed⟩
+    else ⟨{ t.c with negd := [], pc := .top }, true⟩
+  else if tee ∧ t.c.pc = .top ∧ has t.c.st bReady = false ∧ t.teed = false then ⟨t.c.goto .tee, t.teed⟩
+  else ⟨step C O t.c,
+        match t.c.pc with
+        | .ret _ true => if layerOfLast O t.c.tr then false else t.teed
+        | _ => t.teed⟩
+
+def runT (tee : Bool) (C : List Feature) (O : Oracle) : Nat → TConf → TConf
+  | 0, t => t
+  | n + 1, t => runT tee C O n (stepT tee C O t)
 
 def run (C : List Feature) (O : Oracle) : Nat → Conf → Conf
   | 0, c => c
   | n + 1, c => run C O n (step C O c)
 
 def Pc.final : Pc → Bool
-  | .done | .fail _ | .crash | .stuck | .hung _ => true
+  | .done | .fail _ | .crash | .stuck | .hung _ | .tee => true
   | _ => false
 
 end XmppModel.Negotiate
